@@ -330,9 +330,9 @@ def set_vt(dna_sequence, vt_length):
     """
     nucleotides = "ACGT"
 
-    values = array([nucleotides.index(nucleotide) for nucleotide in dna_sequence])
-    vt_value = sum(where((values[1:] - values[:-1]) > 0)[0]) % (len(nucleotides) ** (vt_length - 1))
-    vt_flag = sum(values) % len(nucleotides)
+    values = array([nucleotides.index(nucleotide) for nucleotide in dna_sequence], dtype=int)
+    vt_value = int(sum(where((values[1:] - values[:-1]) > 0)[0])) % (len(nucleotides) ** (vt_length - 1))
+    vt_flag = int(sum(values)) % len(nucleotides)
 
     return nucleotides[vt_flag] + number_to_dna(decimal_number=int(vt_value), dna_length=vt_length - 1)
 
